@@ -371,5 +371,9 @@ def run(ctx):
     # ---------------------------------------------------------------- C12.ARGS
     from ..rules_common import check_call_arguments
     check_call_arguments(ctx, "C12.ARGS", "C12")
+    from ..rules_common import check_effect_tables
+    check_effect_tables(ctx, "C12")
+    from ..rules_common import check_presence_tests, ARG_SCOPE
+    check_presence_tests(ctx, "C12.PRESENCE", classes=ARG_SCOPE.get("C12", []))
 
 
